@@ -220,7 +220,7 @@ func checkC12(c *Ctx, r *Report) {
 	r.Decided = []string{
 		"R1 every insert into an entry map is paired, on every path, with +size (the same value recorded in the entry) and either -oldSize (key existed) or +1 entry (key absent)",
 		"R2 every delete from an entry map is paired on every path with -1 entry and -size where size is the Size recorded in the entry being removed; no decrement without the delete",
-		"R3 counter ownership: byteSize / BytesCached / CacheEntries are mutated only through the four helpers (and the janitor's republish of getCacheSize())",
+		"R3 counter ownership: byteSize / BytesCached / CacheEntries are mutated only through the four helpers (no snapshot of the size is written over them)",
 		"R4 every entry-map mutation, counter helper call and appearance/disappearance of an entry file (os.Rename into place, os.Remove of a published file) runs with the key's shard lock held on every call path (must-hold set): the directory, the map and the counters change in one critical section per key",
 		"R5 a store adds to the counters only after the entry is in the map",
 		"R6 the file backend wipes its directory before the map exists and counters start at zero",
@@ -628,7 +628,9 @@ func checkCounterOwnership(c *Ctx, r *Report, li *LockInfo) {
 					case acctKind(f) != "":
 						r.OkT("C12.R3", fmt.Sprintf("%s helper mutates %s via %s", acctKind(f), fkey, m), c.InstrPos(call), "inside accounting helper")
 					case m == "Set" && originPkgPath(f) == cachePkg && strings.HasSuffix(fkey, "BytesCached") && len(call.Call.Args) == 2 && fromGetCacheSizeIP(li, f, call.Call.Args[1]):
-						r.Ok("C12.R3", "republish of getCacheSize() into "+fkey, c.InstrPos(call), "janitor republishes getCacheSize()")
+						// read-then-overwrite of a counter that concurrent stores and removals change by Add / Sub:
+						// an update that lands between the read and the Set is lost (or counted twice) for good
+						r.Fail("C12.R3", key, c.InstrPos(call), "the reported size is overwritten with a snapshot of getCacheSize() taken earlier: a store or removal that lands between the read and the Set is lost or counted twice, and the reported size stays off by that entry (concurrent stores into a full cache: bytes_cached=600 while 1200 bytes are stored)")
 					default:
 						r.Fail("C12.R3", key, c.InstrPos(call), "metric mutated outside the accounting helpers")
 					}
